@@ -149,6 +149,20 @@ that delivers in time order delivers in rounded-time order — the hypothesis `j
 clause follows from plain time order. -/
 theorem round_monotone (d t t' : Int) (h : t ≤ t') : goRound d t ≤ goRound d t' := goRound_mono d t t' h
 
+/-- **Fields prefixed by the as() names, inner/outer fill** — for every configuration and every join set:
+`joinset.JoinIntoPoint` as transcribed (loop over the parents with the early `return nil` of the inner join,
+Go-map assignments) yields exactly the joined point of the specification: nothing when a parent is missing
+under `fill none`, otherwise the present parents' fields under `as()` name + delimiter and the fill value
+under the first present value's field names for the missing ones; name/dimensions/group tags of the first
+present value (or `streamName`), time = the rounded time of the set. -/
+theorem joinIntoPoint_is_joinedPoint (cfg : JCfg) (s : JSet JMsg) (hl : s.values.length ≤ cfg.names.length) :
+    joinIntoPoint cfg s = joinedPoint cfg s := joinIntoPoint_eq_joinedPoint cfg s hl
+
+/-- Non-vacuity: an outer join with the second parent missing. -/
+example : (joinIntoPoint { parents := 2, tol := 0, fill := .num "i:0", names := ["a", "b"], delim := ".", sname := "" }
+    { time := 7, values := [some { time := 7, name := "m", grp := "", byName := false, dims := [], tags := [], fields := [("v", "i:1")] }, none] }).map (·.fields)
+    = some [("a.v", "i:1"), ("b.v", "i:0")] := by decide
+
 /-- Full-strength statement of the pairing clause (stated, NOT yet proved; evaluated on every run by the spec
 oracle on the implementation's output — hook-driven runs with explicit arrival orders and real tasks — and
 tied by correspondence): when within every group every parent's rounded times never go back, then for
